@@ -696,7 +696,10 @@ theorem dAnteOk_iff (m : DMsg) (g : Addr → Addr → Bool) :
 theorem dHandle_grants (namer : Nat → Addr) (s s' : DState) (m : DMsg) (h : dHandle namer s m = some s') :
     s'.grants = s.grants := by
   unfold dHandle at h
-  split at h <;> (split at h <;> simp at h) <;> (subst h; rfl)
+  split at h
+  all_goals (repeat' split at h)
+  all_goals (simp at h)
+  all_goals (subst h; rfl)
 
 /-- handler level: a handler that changes what is kept for `d` acts on `d`, in its owner's name -/
 theorem dHandle_changed (namer : Nat → Addr) (s s' : DState) (m : DMsg) (d : Nat)
@@ -707,7 +710,10 @@ theorem dHandle_changed (namer : Nat → Addr) (s s' : DState) (m : DMsg) (d : N
     intro hd
     apply hne
     unfold dHandle at h
-    split at h <;> (split at h <;> simp at h) <;> (subst h; simp [dView, setAt, hd])
+    split at h
+    all_goals (repeat' split at h)
+    all_goals (simp at h)
+    all_goals (subst h; simp [dView, setAt, hd])
   subst hd
   refine ⟨rfl, ?_⟩
   unfold dHandle at h
@@ -721,6 +727,58 @@ theorem dHandle_changed (namer : Nat → Addr) (s s' : DState) (m : DMsg) (d : N
     · simp at h
   · split at h
     · rename_i hc; simp [hc]
+    · simp at h
+  · split at h
+    · rename_i hc; simp [hc]
+    · simp at h
+  · split at h
+    · rename_i hc; simp [hc.1, hc.2]
+    · simp at h
+
+/-- the same for the bank's metadata record: the handler that changes the record of `d` acts on
+    `d` (the key it writes, `metadata.base`, IS the denom whose admin it compared), in its owner's name -/
+theorem dHandle_meta_changed (namer : Nat → Addr) (s s' : DState) (m : DMsg) (d : Nat)
+    (h : dHandle namer s m = some s') (hne : s'.dmeta d ≠ s.dmeta d) :
+    d = m.denom ∧ dOwner namer s d = some m.creator := by
+  unfold dHandle at h
+  unfold dOwner
+  split at h
+  · split at h
+    · simp at h; subst h; exact absurd rfl hne
+    · simp at h
+  · split at h
+    · simp at h; subst h; exact absurd rfl hne
+    · simp at h
+  · split at h
+    · simp at h; subst h; exact absurd rfl hne
+    · simp at h
+  · split at h
+    · rename_i hc
+      split at h
+      · rename_i hk
+        simp at h; subst h
+        rw [hk] at hne
+        have hd : d = m.denom := by
+          apply Classical.byContradiction
+          intro hd
+          exact hne (by simp [setAt, hd])
+        subst hd
+        simp [hc]
+      · simp at h
+    · simp at h
+  · split at h
+    · rename_i hc
+      split at h
+      · rename_i hk
+        simp at h; subst h
+        rw [hk] at hne
+        have hd : d = m.denom := by
+          apply Classical.byContradiction
+          intro hd
+          exact hne (by simp [setAt, hd])
+        subst hd
+        simp [hc.1, hc.2]
+      · simp at h
     · simp at h
 
 theorem dDeliver_grants (namer : Nat → Addr) (s : DState) (m : DMsg) : (dDeliver namer s m).grants = s.grants := by
@@ -759,17 +817,62 @@ theorem dDeliver_keeps (namer : Nat → Addr) (s : DState) (m : DMsg) (d : Nat) 
   | inl h => exact hP h
   | inr h => obtain ⟨a, ha, hga⟩ := h; simp [hg a ha] at hga
 
-/-- is principal `P` involved in `op`?  (signs, or grants an allowance) -/
+theorem dDeliver_full_changed (namer : Nat → Addr) (s : DState) (m : DMsg) (d : Nat)
+    (h : dFull (dDeliver namer s m) d ≠ dFull s d) :
+    d = m.denom ∧ dOwner namer s d = some m.creator
+      ∧ (m.creator ∈ m.signers ∨ ∃ a ∈ m.signers, s.grants m.creator a = true) := by
+  by_cases hv : dView (dDeliver namer s m) d = dView s d
+  · have hm : (dDeliver namer s m).dmeta d ≠ s.dmeta d := by
+      intro hm; apply h; simp [dFull, hv, hm]
+    unfold dDeliver at hm
+    split at hm
+    · exact absurd rfl hm
+    · rename_i hante
+      have hante' : dAnteOk m s.grants = true := by simpa using hante
+      split at hm
+      · exact absurd rfl hm
+      · rename_i s' hs'
+        obtain ⟨h1, h2⟩ := dHandle_meta_changed namer s s' m d hs' hm
+        exact ⟨h1, h2, (dAnteOk_iff m s.grants).1 hante'⟩
+  · exact dDeliver_changed namer s m d hv
+
+theorem dDeliver_full_keeps (namer : Nat → Addr) (s : DState) (m : DMsg) (d : Nat) (P : Addr)
+    (hown : dOwner namer s d = some P) (hP : P ∉ m.signers) (hg : ∀ a ∈ m.signers, s.grants P a = false) :
+    dFull (dDeliver namer s m) d = dFull s d := by
+  apply Classical.byContradiction
+  intro hne
+  obtain ⟨_, h2, h3⟩ := dDeliver_full_changed namer s m d hne
+  rw [hown] at h2
+  have : P = m.creator := by simpa using h2
+  subst this
+  cases h3 with
+  | inl h => exact hP h
+  | inr h => obtain ⟨a, ha, hga⟩ := h; simp [hg a ha] at hga
+
+/-- is principal `P` involved in `op`?  (signs, or grants an allowance; a chain export / import
+    involves nobody) -/
 def DInvolves (P : Addr) : DOp → Prop
   | .grant g _ => g = P
   | .revoke _ _ => False
   | .msg m => P ∈ m.signers
+  | .reimport => False
 
 theorem dOwner_of_view (namer : Nat → Addr) (s s' : DState) (d : Nat) (h : dView s' d = dView s d) :
     dOwner namer s' d = dOwner namer s d := by
   unfold dView at h
   have : s'.den d = s.den d := by simpa using congrArg Prod.fst h
   simp [dOwner, this]
+
+theorem dReimport_view (s : DState) (d : Nat) : dView (dReimport s) d = dView s d := rfl
+
+theorem dReimport_grants (s : DState) : (dReimport s).grants = s.grants := rfl
+
+theorem dReimport_meta (s : DState) (d : Nat) :
+    (dReimport s).dmeta d = s.dmeta d ∨ (dReimport s).dmeta d = 0 := by
+  unfold dReimport
+  by_cases h : (s.den d).isSome = true
+  · right; simp [h]
+  · left; simp [h]
 
 theorem dStep_keeps (namer : Nat → Addr) (s : DState) (op : DOp) (d : Nat) (P : Addr)
     (hown : dOwner namer s d = some P) (hg : ∀ e, s.grants P e = false) (hop : ¬ DInvolves P op) :
@@ -792,6 +895,23 @@ theorem dStep_keeps (namer : Nat → Addr) (s : DState) (op : DOp) (d : Nat) (P 
     simp only [DInvolves] at hop
     refine ⟨?_, fun e => by simp only [dStep, dDeliver_grants]; exact hg e⟩
     exact dDeliver_keeps namer s m d P hown hop (fun a _ => hg a)
+  | reimport => exact ⟨rfl, fun e => hg e⟩
+
+/-- … and the bank's metadata record of `d` is kept too, or reset to the default one (only a
+    chain export / import does that) -/
+theorem dStep_meta_keeps (namer : Nat → Addr) (s : DState) (op : DOp) (d : Nat) (P : Addr)
+    (hown : dOwner namer s d = some P) (hg : ∀ e, s.grants P e = false) (hop : ¬ DInvolves P op) :
+    (dStep namer s op).dmeta d = s.dmeta d ∨ (dStep namer s op).dmeta d = 0 := by
+  cases op with
+  | grant a b => left; rfl
+  | revoke a b => left; rfl
+  | msg m =>
+    simp only [DInvolves] at hop
+    left
+    have := dDeliver_full_keeps namer s m d P hown hop (fun a _ => hg a)
+    have h2 : (dFull (dDeliver namer s m) d).2 = (dFull s d).2 := congrArg Prod.snd this
+    simpa [dStep, dFull] using h2
+  | reimport => exact dReimport_meta s d
 
 /-! ### Batch confirmations -/
 
@@ -1583,12 +1703,111 @@ theorem former_admin_locked_out (namer : Nat → Addr) (s : DState) (m : DMsg) (
   exact denom_history_owner_only namer m.denom b ops _ h
     (fun e => by rw [dDeliver_grants]; exact hg e) hops
 
+/-- Clause "a transaction authorised by account A never adds, alters or removes anything
+attributed to a different principal B" for a message whose OWN FIELDS may disagree (the wasm
+bindings `set_metadata` / `create_denom` carry a `denom`, whose admin is compared with the calling
+contract, and a `metadata.base`, under which the bank record is written): whatever `base` spells,
+if anything kept for denom `d` — the bank's metadata record included (`dFull`) — changes, then `d`
+is the message's `denom`, its owner is the creator, and the owner signed or granted to a signer. -/
+theorem denom_full_change_authorised (namer : Nat → Addr) (s : DState) (m : DMsg) (d : Nat)
+    (h : dFull (dDeliver namer s m) d ≠ dFull s d) :
+    d = m.denom ∧ dOwner namer s d = some m.creator
+      ∧ (m.creator ∈ m.signers ∨ ∃ a ∈ m.signers, s.grants m.creator a = true) :=
+  dDeliver_full_changed namer s m d h
+
+/-- … so a denom whose owner `P` neither signed nor granted keeps everything, whichever denom the
+message names in whichever of its fields (a metadata record can neither be rewritten nor
+pre-created — which would block `P`'s own `CreateDenom` — under somebody else's denom). -/
+theorem denom_no_cross_principal_write_full (namer : Nat → Addr) (s : DState) (m : DMsg) (d : Nat) (P : Addr)
+    (hown : dOwner namer s d = some P) (hP : P ∉ m.signers) (hg : ∀ a ∈ m.signers, s.grants P a = false) :
+    dFull (dDeliver namer s m) d = dFull s d :=
+  dDeliver_full_keeps namer s m d P hown hP hg
+
+/-- An accepted `set_metadata` / `create_denom` with metadata names, as `metadata.base`, nothing
+(`none`: filled in) or exactly the denom whose admin was compared. -/
+theorem set_metadata_key_is_checked_denom (namer : Nat → Addr) (s : DState) (m : DMsg) (base : Option Nat)
+    (hact : m.act = .setMeta base ∨ m.act = .createMeta base) (hacc : dAccepted namer s m = true) :
+    base = none ∨ base = some m.denom := by
+  unfold dAccepted at hacc
+  have hsome : (dHandle namer s m).isSome = true := by
+    cases h : (dHandle namer s m).isSome <;> simp [h] at hacc ⊢
+  unfold dHandle at hsome
+  cases hact with
+  | inl hact =>
+    simp only [hact] at hsome
+    split at hsome
+    · split at hsome
+      · rename_i hk
+        cases base with
+        | none => left; rfl
+        | some b => right; simpa using hk
+      · simp at hsome
+    · simp at hsome
+  | inr hact =>
+    simp only [hact] at hsome
+    split at hsome
+    · split at hsome
+      · rename_i hk
+        cases base with
+        | none => left; rfl
+        | some b => right; simpa using hk
+      · simp at hsome
+    · simp at hsome
+
+/-- A chain export / import (no transaction of anybody) changes nobody's ownership: existence,
+admin — handed over or renounced — and supply / bridge bindings of every denom are as before, so
+every denom is attributed to the same principal afterwards. -/
+theorem reimport_keeps_ownership (namer : Nat → Addr) (s : DState) (d : Nat) :
+    dView (dReimport s) d = dView s d ∧ dOwner namer (dReimport s) d = dOwner namer s d ∧
+      (dReimport s).grants = s.grants :=
+  ⟨rfl, dOwner_of_view namer s _ d rfl, rfl⟩
+
+/-- As built, the bank's metadata record does not always survive: it is kept or replaced by the
+default record (`InitGenesis` runs `createDenomAfterValidation` for every exported denom) — nobody
+gains control, but a record the admin had set is lost (observation, also C16). -/
+theorem reimport_metadata_kept_or_default (s : DState) (d : Nat) :
+    (dReimport s).dmeta d = s.dmeta d ∨ (dReimport s).dmeta d = 0 :=
+  dReimport_meta s d
+
+/-- The history theorem for the metadata record: over ALL histories of grants, revocations, denom
+messages (with whatever `denom` / `metadata.base`) and chain exports / imports in which the owner
+`P` of `d` neither signs nor grants, the record of `d` is the one it was, or the default one (and
+the latter only through an export / import: `dStep_meta_keeps`). -/
+theorem denom_history_metadata_owner_only (namer : Nat → Addr) (d : Nat) (P : Addr) (ops : List DOp) :
+    ∀ s : DState, dOwner namer s d = some P → (∀ e, s.grants P e = false) →
+      (∀ op ∈ ops, ¬ DInvolves P op) →
+      (dRun namer s ops).dmeta d = s.dmeta d ∨ (dRun namer s ops).dmeta d = 0 := by
+  induction ops with
+  | nil => intro s _ _ _; left; rfl
+  | cons op rest ih =>
+    intro s hown hg hops
+    have h1 := dStep_keeps namer s op d P hown hg (hops op (by simp))
+    have hm := dStep_meta_keeps namer s op d P hown hg (hops op (by simp))
+    have hown' : dOwner namer (dStep namer s op) d = some P := by
+      rw [dOwner_of_view namer s _ d h1.1]; exact hown
+    have h2 := ih (dStep namer s op) hown' h1.2 (fun o ho => hops o (by simp [ho]))
+    simp only [dRun, List.foldl_cons] at h2 ⊢
+    cases h2 with
+    | inl h2 =>
+      cases hm with
+      | inl hm => left; rw [h2, hm]
+      | inr hm => right; rw [h2, hm]
+    | inr h2 => right; exact h2
+
+/-- Light-node licences and client records across a chain export / import (no transaction of
+anybody): every principal's client record and pending licence, and the grants, are as before. -/
+theorem light_node_reimport_keeps_everything (s : LState) (p : Addr) :
+    (lReimport s).client p = s.client p ∧ (lReimport s).licence p = s.licence p ∧ (lReimport s).grants = s.grants :=
+  ⟨rfl, rfl, rfl⟩
+
 /-- a denom message as a message of the generic model -/
 def dMsg (m : DMsg) : Msg :=
   { typ := match m.act with
       | .create => "tokenfactory.CreateDenom"
       | .changeAdmin _ => "tokenfactory.ChangeAdmin"
-      | .write => "tokenfactory.Mint",
+      | .write => "tokenfactory.Mint"
+      | .setMeta _ => "tokenfactory.SetDenomMetadata"
+      | .createMeta _ => "tokenfactory.CreateDenom",
     signers := m.signers, creator := m.creator,
     field := fun f => match m.act with
       | .changeAdmin (some n) => if f = "NewAdmin" then some n else none
@@ -2362,6 +2581,29 @@ example : dView (dRun exNamer dInit [exD 10 10 .create, exD 10 10 (.changeAdmin 
 example : dView (dRun exNamer dInit [exD 10 10 .create, exD 10 10 (.changeAdmin none), exD 10 10 .write, exD 10 10 .create]) 1
     = (some none, 0) := by decide
 example : dView (dRun exNamer dInit [exD 11 11 .create]) 1 = (none, 0) := by decide
+/-- two denoms: 1 named after 10, 2 named after 11.  10 (admin of 1 only) names denom 2 as
+    `metadata.base` of a set_metadata / create_denom for denom 1: refused, nothing of denom 2 (nor of
+    denom 1) changes — whether denom 2 exists already or not; with `base` empty or = denom 1 it is
+    accepted and writes denom 1's record -/
+def exNamer2 : Nat → Addr := fun d => if d = 2 then 11 else 10
+def exD2 (signer creator : Addr) (denom : Nat) (act : DAct) : DOp :=
+  .msg { signers := [signer], creator := creator, denom := denom, act := act }
+example : (fun s => (dFull s 1, dFull s 2)) (dRun exNamer2 dInit [exD2 10 10 1 .create, exD2 11 11 2 .create,
+    exD2 10 10 1 (.setMeta (some 2))]) = (((some (some 10), 0), 0), ((some (some 11), 0), 0)) := by decide
+example : (fun s => (dFull s 1, dFull s 2)) (dRun exNamer2 dInit [exD2 10 10 1 .create, exD2 11 11 2 .create,
+    exD2 10 10 1 (.setMeta none), exD2 10 10 1 (.setMeta (some 1))]) = (((some (some 10), 0), 2), ((some (some 11), 0), 0)) := by decide
+example : (fun s => (dFull s 1, dFull s 2)) (dRun exNamer2 dInit [exD2 10 10 1 (.createMeta (some 2))])
+    = (((none, 0), 0), ((none, 0), 0)) := by decide
+example : (fun s => (dFull s 1, dFull s 2)) (dRun exNamer2 dInit [exD2 10 10 1 (.createMeta none), exD2 11 11 2 .create])
+    = (((some (some 10), 0), 1), ((some (some 11), 0), 0)) := by decide
+/-- across a chain export / import: the hand-over to 22 (and a renouncement) survives, the former
+    admin stays locked out, the new admin is not; the custom metadata record is reset (as built) -/
+example : dFull (dRun exNamer dInit [exD 10 10 .create, exD 10 10 (.setMeta none), exD 10 10 (.changeAdmin (some 22)),
+    .reimport, exD 10 10 .write, exD 10 10 (.changeAdmin (some 10)), exD 22 22 .write]) 1 = ((some (some 22), 1), 0) := by decide
+example : dFull (dRun exNamer dInit [exD 10 10 .create, exD 10 10 (.changeAdmin none), .reimport, exD 10 10 .write]) 1
+    = ((some none, 0), 0) := by decide
+example : (dRun exNamer dInit [exD 10 10 .create, exD 10 10 (.setMeta none)]).dmeta 1 = 1
+    ∧ (dRun exNamer dInit [exD 10 10 .create, exD 10 10 (.setMeta none), .reimport]).dmeta 1 = 0 := by decide
 /-- the hypotheses of `former_admin_locked_out` are satisfiable -/
 example : dAccepted exNamer (dRun exNamer dInit [exD 10 10 .create])
     { signers := [10], creator := 10, denom := 1, act := .changeAdmin (some 22) } = true := by decide
